@@ -1,7 +1,7 @@
 (** C02 (round 5) — longest_radius_extension commutes with every injective renumbering (that keeps the edge-list order, as
     [relabel] does), hence extract_k(its, n_knn) does for EVERY option value, n_knn = -1 included. *)
 From Coq Require Import List NArith ZArith Bool Lia.
-From SK Require Import lib.LGraph lib.Reach lib.C01_GraphLemmas model.C01_Model model.C02_Model proof.C02_Proof proof.C02_CtxEquiv.
+From SK Require Import lib.LGraph lib.Reach lib.C01_GraphLemmas model.C01_Model model.C02_Model proof.C02_Proof proof.C02_Lre proof.C02_CtxEquiv.
 Import ListNotations.
 Local Open Scope Z_scope.
 
@@ -87,3 +87,29 @@ Example C02_lre_equivariant_nonvacuous :
 Proof.
   split; [vm_compute; discriminate|]. split; [apply lre_relabel|apply extract_k_z_equivariant]; intros a b; apply N.add_cancel_l.
 Qed.
+
+(** * the result is empty only when there is no centre atom (so the empty alternative of theorem 19 is not an out-of-fuel escape) *)
+Lemma lre_as_fold (g : its) rcn : lre g rcn = snd (fold_left (lre_step g) rcn ([], [])).
+Proof. reflexivity. Qed.
+
+Lemma lre_step_best_nonempty (g : its) st n : snd st <> [] -> snd (lre_step g st n) <> [].
+Proof.
+  destruct st as [vis best]. unfold lre_step. cbn [snd]. intros Hb. destruct (LGraph.mem n vis); [exact Hb|]. cbv zeta. cbn [snd].
+  destruct (length best <? length (lre_dfs g (S (length (gnodes g))) n vis [n]))%nat eqn:E; [|exact Hb].
+  intros C. rewrite C in E. simpl in E. apply Nat.ltb_lt in E. lia.
+Qed.
+
+Theorem lre_nil_iff (g : its) rcn : lre g rcn = [] <-> rcn = [].
+Proof.
+  split; [|intros ->; reflexivity]. destruct rcn as [|n r]; [reflexivity|]. intros E. exfalso. rewrite lre_as_fold in E.
+  cbn [fold_left] in E.
+  assert (snd (lre_step g ([], []) n) <> []) as H0.
+  { unfold lre_step. cbn [LGraph.mem existsb]. cbv zeta. cbn [snd].
+    destruct (lre_dfs_spec g (S (length (gnodes g))) n [] [n]) as (ext & Ep & _). rewrite Ep. simpl. discriminate. }
+  assert (forall L st, snd st <> [] -> snd (fold_left (lre_step g) L st) <> []) as H.
+  { induction L as [|x L IH]; intros st Hs; [exact Hs|]. cbn [fold_left]. apply IH. apply lre_step_best_nonempty. exact Hs. }
+  exact (H r _ H0 E).
+Qed.
+
+Example C02_lre_nil_nonvacuous : lre ex_its [] = [] /\ lre ex_its [7%N] = [7%N; 6%N; 5%N; 1%N].
+Proof. vm_compute. split; reflexivity. Qed.
